@@ -59,6 +59,15 @@ func init() {
 			}
 		}
 		g.pf("def heap : List (String × String) :=\n  %s\n\n", leanPairList(heap))
+		// maps, append/copy and range loops: what the collections model (Model/Coll.lean) was written from
+		var coll [][2]string
+		for _, n := range []string{"Ctx.capExpr", "Ctx.copyExpr", "Ctx.lenExpr", "Ctx.rangeStmt", "Ctx.mapRangeStmt", "Ctx.sliceRangeStmt", "Ctx.identBinder",
+			"getIdentOrAnonymous", "getIdentOrNil", "Ctx.mapType", "supportedMapKey", "Ctx.multipleAssignStmt", "Ctx.indexExpr", "Ctx.makeExpr"} {
+			if fds[n] != nil {
+				coll = append(coll, [2]string{n, canonFunc(p, fds[n])})
+			}
+		}
+		g.pf("def coll : List (String × String) :=\n  %s\n\n", leanPairList(coll))
 		g.pf("end GooseVerif.Gen.Guards\n")
 		g.write()
 	}})
